@@ -183,3 +183,44 @@ impl Deq {
         )
     }
 }
+
+/// Scheduler switch points. `point(site)` is called by the library at the places listed
+/// in /verif/DESIGN.md; it does nothing unless a scheduler has been installed by the
+/// harness, in which case the calling thread blocks until the scheduler lets it go on.
+pub mod sched {
+    use std::sync::{Arc, RwLock};
+
+    pub trait Scheduler: Send + Sync {
+        /// Called by a library thread reaching the switch point `site`.
+        fn point(&self, site: &'static str);
+    }
+
+    static SCHED: RwLock<Option<Arc<dyn Scheduler>>> = RwLock::new(None);
+
+    pub fn install(s: Option<Arc<dyn Scheduler>>) {
+        *SCHED.write().expect("lock poisoned") = s;
+    }
+
+    #[inline]
+    pub fn point(site: &'static str) {
+        let s = SCHED.read().expect("lock poisoned").clone();
+        if let Some(s) = s {
+            s.point(site);
+        }
+    }
+
+    /// Switch point in front of a blocking lock acquisition: yields at `site` until
+    /// `ready()` holds, so that a thread never blocks on a real lock while it is the one
+    /// the scheduler lets run. Without a scheduler it returns at once.
+    pub fn wait_until(site: &'static str, ready: impl Fn() -> bool) {
+        let s = SCHED.read().expect("lock poisoned").clone();
+        if let Some(s) = s {
+            loop {
+                s.point(site);
+                if ready() {
+                    break;
+                }
+            }
+        }
+    }
+}
